@@ -93,17 +93,9 @@ class _Names:
     KEYWORD_TYPES = property(lambda self: self._dialect_switch()[3])
 
     def _docstring_attrs(self):
-        def find():
-            cls = facts().cls(MQ)
-            sink = self.SINK
-            ds_match = None
-            for fi in cls.all_methods():
-                for n in _walk(fi.node):
-                    if isinstance(n, ast.Call) and isinstance(n.func, ast.Attribute) and n.func.attr == sink and len(n.args) >= 2 \
-                            and isinstance(n.args[1], ast.Constant) and n.args[1].value == "DocStringSeparator":
-                        ds_match = ds_match or fi.name
-            # the delimiter state, by how it is written anywhere in the class (directly or through helpers): one attribute is
-            # bound to None and to a computed value (the active delimiter), one to 0 and to a computed value (its indentation)
+        def state_pair(cls):
+            """(active, indent) attribute names by how the class writes them: one attribute is bound to None and to a computed
+            value (the active delimiter), one to 0 and to a computed value (its indentation); or None."""
             writes: dict = {}
             per_fn: dict = {}
             for fi in cls.all_methods():
@@ -140,9 +132,67 @@ class _Names:
                 if best:
                     act, ind = [best[1]], [best[2]]
             if len(act) == 1 and len(ind) == 1:
-                return (ds_match or "_match_DocStringSeparator", act[0], ind[0])
+                return act[0], ind[0]
+            return None
+
+        def holders(cls):
+            """attributes of the matcher bound to a new object of a class of the repository: (attribute, class)"""
+            out = []
+            f = facts()
+            for fi in cls.all_methods():
+                selfname = fi.params()[0] if fi.params() else None
+                for n in _walk(fi.node):
+                    tgts = []
+                    if isinstance(n, ast.Assign):
+                        tgts = [(t, n.value) for t in n.targets]
+                    elif isinstance(n, ast.AnnAssign) and n.value is not None:
+                        tgts = [(n.target, n.value)]
+                    for t, v in tgts:
+                        if isinstance(t, ast.Attribute) and isinstance(t.value, ast.Name) and t.value.id == selfname \
+                                and isinstance(v, ast.Call) and isinstance(v.func, ast.Name):
+                            hc = f.resolve_class(fi.module, v.func.id)
+                            if hc is not None and (t.attr, hc) not in out:
+                                out.append((t.attr, hc))
+            return out
+
+        def find():
+            cls = facts().cls(MQ)
+            sink = self.SINK
+            ds_match = None
+            for fi in cls.all_methods():
+                for n in _walk(fi.node):
+                    if isinstance(n, ast.Call) and isinstance(n.func, ast.Attribute) and n.func.attr == sink and len(n.args) >= 2 \
+                            and isinstance(n.args[1], ast.Constant) and n.args[1].value == "DocStringSeparator":
+                        ds_match = ds_match or fi.name
+            # the delimiter state, by how it is written anywhere in the class (directly or through helpers)
+            pair = state_pair(cls)
+            if pair is not None:
+                return (ds_match or "_match_DocStringSeparator", pair[0], pair[1], None, None)
+            # ... or kept in a helper object the matcher holds (its own small state class)
+            found = []
+            for attr, hc in holders(cls):
+                hp = state_pair(hc)
+                if hp is not None:
+                    found.append((attr, hc, hp))
+            if len(found) == 1:
+                attr, hc, hp = found[0]
+                return (ds_match or "_match_DocStringSeparator", hp[0], hp[1], attr, hc.qualname)
             raise AnalysisError("anchor vanished: doc string delimiter state of the token matcher not found")
         return self._get("DS", find)
+
+    @property
+    def DS_HOLDER(self):
+        """Attribute of the matcher holding the object the doc string state lives in (None: the matcher itself)."""
+        return self._docstring_attrs()[3]
+
+    @property
+    def DS_HOLDER_CLASS(self):
+        return self._docstring_attrs()[4]
+
+    def ds_base(self, selft):
+        """The object carrying the doc string state, as a term over the matcher ``selft``."""
+        h = self.DS_HOLDER
+        return selft if h is None else ("attr", selft, h)
 
     @property
     def DS_MATCH(self) -> str:
